@@ -7,6 +7,12 @@ def _conc(ctx):
     from units import conc
     conc.conc_sessions(ctx, int((20 if ctx.tier == "quick" else 300) * ctx.budget))
 
-Unit([("sync", scen.gen_sync_read, 1)], (oracles.o_c09, oracles.o_c08, oracles.o_lean_sync) + COMMON,
+def _faulted(rng):
+    # a list/stat reply cut short by a transport failure, reconnect, the same queries again: entries and metadata are those of the NEW replies only
+    from units import c12
+    return c12.gen_faulted(rng)
+
+
+Unit([("sync", scen.gen_sync_read, 8), ("fault", _faulted, 1), ("trailing", scen.gen_trailing_then, 2)], (oracles.o_c09, oracles.o_c08, oracles.o_lean_sync, oracles.o_c12_after_reconnect) + COMMON,
      "listings of 0,1,2,5,40 entries with names of 1..255 arbitrary bytes (NUL, '/', invalid UTF-8), 32-bit edge values in every field, any WRTE "
      "packetisation of the reply; stat triples likewise. Non-trivial/distinct as for C01.", 120, 3000, extra_run=_conc).export(globals())
